@@ -33,12 +33,13 @@ def hexOf (b : List Nat) : String :=
 def parseAsset? (v : String) : Option AssetDef :=
   match v.splitOn ":" with
   | [k, raw, ref, label, dec] => do
-    let native ← if k == "n" then some true else if k == "c" then some false else none
+    -- n = native denom, c = cw20 token, a = a cw20 token's address in another letter case
+    let native ← if k == "n" then some true else if k == "c" || k == "a" then some false else none
     let raw ← unhex? raw
     let ref ← unhex? ref
     let label ← unhex? label
     let dec ← dec.toNat?
-    pure { native := native, raw := raw, ref := ref, label := label, dec := dec }
+    pure { native := native, raw := raw, ref := ref, label := label, dec := dec, dead := k == "a" }
   | _ => none
 
 def joinWith (sep : String) (xs : List String) : String := sep.intercalate xs
@@ -90,7 +91,8 @@ def body (cfg : Cfg) (s : St) : String :=
   " trios=" ++ orDash (joinWith ";" (s.trios.reg.map fun e => showTrio s e.2)) ++
   " vaults=" ++ orDash (joinWith ";" (s.vaults.reg.map fun e => showVault s e.2)) ++
   " incs=" ++ orDash (joinWith ";" (s.incs.reg.map fun e => showInc cfg s e.1 e.2)) ++
-  " routes=" ++ orDash (joinWith ";" (s.routes.map fun e => showRoute e.2))
+  " routes=" ++ orDash (joinWith ";" (s.routes.map fun e => showRoute e.2)) ++
+  " kids=" ++ dots (childCounts cfg s)
 
 def facInit (ws : List String) : Option (FacState × String) := do
   let m := kvs ws
